@@ -347,3 +347,22 @@ PROPS["C01"] = {
     "note": "payload values outside the representatives are not enumerated (control fields and sizes are); histories longer than the bounds where no fixpoint is reached; API misuse (NULL arguments, mode values outside the enum) is outside the statement; the watchdog treats 4 s of CPU time without progress as an unbounded loop",
     "jobs": {"quick": c01_jobs(True), "thorough": c01_jobs(False)},
 }
+
+# an application that never reads the node error (the error register of the node is sticky): one representative exploration per service
+NOPOLL = {"nopoll": 1}
+PROPS["C09"]["jobs"]["quick"] += [J("c09", 0, depth=80, deadline=120, opts=NOPOLL)]
+PROPS["C09"]["jobs"]["thorough"] += [J("c09", 0, depth=80, deadline=600, opts=NOPOLL)]
+PROPS["C10"]["jobs"]["quick"] += [J("c10", 0, depth=6, deadline=100, opts=NOPOLL)]
+PROPS["C10"]["jobs"]["thorough"] += [J("c10", 0, depth=8, deadline=600, max_states=30000000, opts=NOPOLL)]
+PROPS["C11"]["jobs"]["quick"] += [J("c11", 1, depth=5, deadline=100, opts=NOPOLL)]
+PROPS["C11"]["jobs"]["thorough"] += [J("c11", 1, depth=7, deadline=600, max_states=30000000, opts=NOPOLL)]
+PROPS["C12"]["jobs"]["quick"] += [J("c12", 22, depth=6, deadline=100, allow_dead=True, opts=NOPOLL)]
+PROPS["C12"]["jobs"]["thorough"] += [J("c12", 22, depth=8, deadline=600, allow_dead=True, opts=NOPOLL)]
+PROPS["C13"]["jobs"]["quick"] += [J("c13", 73, depth=30, deadline=100, allow_dead=True, opts=NOPOLL)]
+PROPS["C13"]["jobs"]["thorough"] += [J("c13", c, depth=60, deadline=600, allow_dead=True, opts=NOPOLL) for c in (73, 106)]
+PROPS["C14"]["jobs"]["quick"] += [J("c14", 1, depth=5, deadline=100, opts=NOPOLL)]
+PROPS["C14"]["jobs"]["thorough"] += [J("c14", 1, depth=7, deadline=600, max_states=20000000, opts=NOPOLL)]
+PROPS["C15"]["jobs"]["quick"] += [J("c15", 2, defs=E8, depth=40, deadline=100, opts=NOPOLL)]
+PROPS["C15"]["jobs"]["thorough"] += [J("c15", 2, defs=E8, depth=40, deadline=600, opts=NOPOLL)]
+for _p in ("C09", "C10", "C11", "C12", "C13", "C14", "C15"):
+    PROPS[_p]["text"] += " One representative exploration runs once more with an application that never reads (and so never clears) the node error."
